@@ -269,6 +269,76 @@ def h_disciplined(X, K):
     _run(X, K, True)
 
 
+def h_handle_hook(X):
+    """the REAL ProxyConnectionHandler.handle_hook coroutine (mode_servers.py) under a real asyncio loop: while a
+    hook is being handled -- including the whole time an intercepted flow waits for the user -- the connection's
+    real TimeoutWatchdog must stay disarmed, and it must be re-armed (idle period restarted) when the last one ends"""
+    import asyncio
+
+    from mitmproxy.proxy import mode_servers, server
+    from mitmproxy.proxy.layers import http as H
+    from mitmproxy.test import tflow
+
+    n_hooks = X.choose("concurrent_hooks", [1, 2])
+    plan = [dict(intercept=X.boolean("intercepted"), slow=X.choose("addon_yields", [0, 2])) for _ in range(n_hooks)]
+    resume_order = X.choose("resume_order", ["fifo", "lifo"]) if n_hooks == 2 else "fifo"
+    problems = []
+
+    async def main():
+        wd = server.TimeoutWatchdog(3600, lambda: asyncio.sleep(0))
+        flows = [tflow.tflow() for _ in plan]
+        for f in flows:
+            f.live = True
+
+        class _Addons:
+            async def handle_lifecycle(self, hook):
+                (data,) = hook.args()
+                i = flows.index(data)
+                for _ in range(plan[i]["slow"]):
+                    await asyncio.sleep(0)
+                if plan[i]["intercept"]:
+                    data.intercept()
+
+        class _Master:
+            addons = _Addons()
+
+        class _Handler:  # the two attributes handle_hook uses
+            timeout_watchdog = wd
+            master = _Master()
+
+        h = _Handler()
+        tasks = [asyncio.ensure_future(mode_servers.ProxyConnectionHandler.handle_hook(h, H.HttpRequestHook(f))) for f in flows]
+        for _ in range(6):
+            await asyncio.sleep(0)
+            pending = [t for t in tasks if not t.done()]
+            if pending and (wd.can_timeout.is_set() or wd.blocker == 0):
+                problems.append(f"watchdog armed (can_timeout={wd.can_timeout.is_set()}, blocker={wd.blocker}) while {len(pending)} hook(s) pending")
+        held = [i for i, t in enumerate(tasks) if not t.done()]
+        if held:
+            X.reach("held-by-intercept")
+        for i in (held if resume_order == "fifo" else held[::-1]):
+            flows[i].resume()
+            for _ in range(3):
+                await asyncio.sleep(0)
+            still = [t for t in tasks if not t.done()]
+            if still and (wd.can_timeout.is_set() or wd.blocker == 0):
+                problems.append(f"watchdog re-armed while {len(still)} hook(s) still pending")
+        for _ in range(3):
+            await asyncio.sleep(0)
+        if not all(t.done() for t in tasks):
+            problems.append("handle_hook did not finish after resume")
+        elif not wd.can_timeout.is_set() or wd.blocker != 0:
+            problems.append(f"watchdog not re-armed after the last hook (can_timeout={wd.can_timeout.is_set()}, blocker={wd.blocker})")
+        for t in tasks:
+            if t.done() and t.exception():
+                problems.append(f"handle_hook raised {t.exception()!r}")
+
+    asyncio.run(main())
+    X.reach("ran")
+    X.check(not problems, "C10/handle-hook/" + ("armed-while-pending" if any("pending" in p for p in problems) else "not-rearmed"),
+            f"plan={plan} resume={resume_order}: " + "; ".join(problems[:3]))
+
+
 def obligations(tier):
     k1, k2 = (6, 8) if tier == "quick" else (8, 10)
     alpha = "{advance clock to a later symbolic instant, register_activity, hook-enter, hook-exit, resume watchdog task}"
@@ -283,4 +353,8 @@ def obligations(tier):
                     f"and the watchdog task is resumed with zero lateness; same symbolic times",
              encoded=ENCODED, stubs=STUBS, parallel_depth=3,
              must_reach=["fired", "hook-enter", "hook-exit", "overlapping-hooks", "woke-from-sleep", "blocked-on-hook", "fired-in-epilogue"]),
+        Symx("handle-hook-disarms", h_handle_hook,
+             bounds="real ProxyConnectionHandler.handle_hook under a real asyncio loop: 1-2 concurrent hooks x intercepted or not x addon yields 0/2 times x resume order; real TimeoutWatchdog observed at every scheduling point",
+             encoded=ENCODED + ["mitmproxy.proxy.mode_servers:ProxyConnectionHandler.handle_hook"], must_reach=["ran", "held-by-intercept"],
+             stubs=["master.addons.handle_lifecycle -> harness addon (intercepts or not)"]),
     ]
